@@ -19,6 +19,9 @@ RULES = {
              "`status` and/or `votes` changed; PROPOSALS entries are never removed",
     "R05.5": "ids: next_id saves and returns (stored count or 0) + 1 exactly; the creating write and the proposer's ballot use "
              "that id; nothing else writes PROPOSAL_COUNT",
+    "R05.7": "fixed at creation, as observed: Proposal / ListProposals / ReverseProposals report the threshold as "
+             "stored.threshold.to_response(stored.total_weight) of the stored proposal - not of the live configuration or group "
+             "(shared with C03 R03.4)",
     "R05.6": "expiry clamp: the stored expiry is max_voting_period.after(env.block) when the requested one compares Greater, "
              "the requested one when Less/Equal, and an incomparable request has no Ok-path",
 }
@@ -148,6 +151,15 @@ def run(ctx):
     ctx.floor("R05.4", "non-creating PROPOSALS writes", n_nc, 6)
     ctx.floor("R05.5", "creating PROPOSALS writes", n_create, 2)
     ctx.floor("R05.1", "executor cases seen on flex Execute paths (None / Member / Only)", len(auth_cases), 3)
+    # R05.7: what is fixed at creation is also what queries keep reporting (shared with C03 R03.4)
+    from . import C03
+    sub = type(ctx)(ctx.pid, ctx.facts, ctx.engine, ctx.tier, ctx.tree_hash)
+    C03.check_queries(sub, it)
+    for k in sub.order:
+        o = sub.obs[k]
+        if o.rule == "R03.4" and o.key.endswith("/threshold"):
+            ctx.ob("R05.7", o.key, True if o.status == "discharged" else (None if o.status == "undecided" else False),
+                   detail="; ".join(o.details), sites=o.sites, sample=o.sample)
     # other entry points must not touch proposals
     for crate in CONTRACTS:
         eps = entry_points(ctx.facts, crate)
